@@ -21,7 +21,9 @@ structure DS where
   connMap : List (Option Nat) := []
   hookA : Bool := false
   hookD : Bool := false
-  nextAddr : Nat := 0
+  nextAddr : Nat := 1
+  /-- the serving call is `Listen` on a real socket at address 0 (no controlled listener) -/
+  sock : Bool := false
 
 def pcOf (w : World) (k : Nat) : Option Pc := (w.calls[k]?).map (·.pc)
 
@@ -110,7 +112,7 @@ def event (s : DS) (tok : String) : DS × String :=
     if active then (s, "skip")
     else
       let k := s.w.calls.length
-      match doLabel s (.spawn .doListen (r == ['1']) none) with
+      match doLabel s (if s.sock then .spawn .listen (r == ['1']) (some 0) else .spawn .doListen (r == ['1']) none) with
       | none => (s, "unreachable")
       | some s1 => (settleH fuel { s1 with serve := some k }, "go")
   | 'L' :: _ =>
@@ -127,7 +129,7 @@ def event (s : DS) (tok : String) : DS × String :=
              | some _ => "err"
              | none => "hang")
   | 'C' :: _ =>
-    if s.w.lsnrs.isEmpty then ({ s with connMap := s.connMap ++ [none] }, "nolsn")
+    if s.w.lsnrs.isEmpty then ({ s with connMap := s.connMap ++ [none] }, if s.sock then "refused" else "nolsn")
     else
       let l := s.w.lsnrs.length - 1
       let i := s.w.conns.length
@@ -151,7 +153,8 @@ def event (s : DS) (tok : String) : DS × String :=
           let s2 := settleH fuel s1
           let served' := ((s2.w.conns[i]?).map (·.served)).getD 0
           (s2, if served' == x.served + 1 then "ok"
-               else if ((s2.w.conns[i]?).map (fun y => serverEndClosed y.phase)).getD false then "eof" else "hang")
+               else if ((s2.w.conns[i]?).map (fun y => serverEndClosed y.phase)).getD false then
+                 (if s.sock then "fail" else "eof") else "hang")
   | 'F' :: _ =>
     match connFor s tok with
     | .bad why => (s, why)
@@ -163,7 +166,8 @@ def event (s : DS) (tok : String) : DS × String :=
         | none => (s, "hang")
         | some s1 =>
           let s2 := settleH fuel s1
-          (s2, if ((s2.w.conns[i]?).map (fun y => serverEndClosed y.phase)).getD false then "eof" else "hang")
+          (s2, if ((s2.w.conns[i]?).map (fun y => serverEndClosed y.phase)).getD false then
+                 (if s.sock then "fail" else "eof") else "hang")
   | 'X' :: _ =>
     match connFor s tok with
     | .bad why => (s, why)
@@ -233,14 +237,14 @@ def snapP : P Snap := do
   let counter ← nat; let closes ← nat; let deadlines ← nat
   pure { ret, running, lst, addr, counter := Int.ofNat counter, closes, deadlines }
 
-def snapDiff (e o : Snap) : Option String :=
+def snapDiff (sock : Bool) (e o : Snap) : Option String :=
   if e.ret != o.ret then some s!"return-value(model={e.ret},observed={o.ret})"
   else if e.running != o.running then some "running-flag"
   else if e.lst != o.lst then some "listener-field"
   else if e.addr != o.addr then some "address-fields"
   else if e.counter != o.counter then some s!"active-count(model={e.counter},observed={o.counter})"
-  else if e.closes != o.closes then some s!"close-calls(model={e.closes},observed={o.closes})"
-  else if e.deadlines != o.deadlines then some "deadline-calls"
+  else if !sock && e.closes != o.closes then some s!"close-calls(model={e.closes},observed={o.closes})"
+  else if !sock && e.deadlines != o.deadlines then some "deadline-calls"
   else none
 
 def evKind (tok : String) : String := String.ofList (tok.toList.take 1)
@@ -249,24 +253,28 @@ def evKind (tok : String) : String := String.ofList (tok.toList.take 1)
     `prev` is the snapshot before the event; state: (closedSince : the listener stored in the service was
     shut down or timed out and nothing was bound since, lastFired : the last event was an expiry that fired). -/
 structure Orc where
+  sock : Bool := false
   closedSince : Bool := false
   hookA : Bool := false
+  hookD : Bool := false
   bad : Option String := none
 
 def oracleStep (o : Orc) (tok res : String) (prev cur : Snap) : Orc :=
   if o.bad.isSome then o else
   let k := evKind tok
-  let o := if tok == "hA" then { o with hookA := true } else o
+  let o := if tok == "hA" then { o with hookA := true } else if tok == "hD" then { o with hookD := true } else o
   -- C15: the timeout error only at an expiry that found no open connection
   let o :=
     if cur.ret == 3 && prev.ret != 3 then
       if !(k == "T" && res == "fired") then { o with bad := some "C15 timeout-return-without-expiry" }
       else if prev.counter != 0 then { o with bad := some "C15 timeout-return-while-a-connection-is-open" }
-      else if cur.lst || cur.closes ≤ prev.closes then { o with bad := some "C15 endpoint-not-released-after-timeout" }
+      else if cur.lst || (!o.sock && cur.closes ≤ prev.closes) then
+        { o with bad := some "C15 endpoint-not-released-after-timeout" }
       else { o with closedSince := true }
-    else if k == "T" && res == "fired" && prev.ret == 1 && prev.counter == 0 && !o.hookA && cur.ret != 3 then
+    else if k == "T" && res == "fired" && prev.ret == 1 && prev.counter == 0 && !o.hookA && !o.hookD && cur.ret != 3 then
       { o with bad := some "C15 idle-expiry-did-not-stop-the-service" }
-    else if k == "T" && res == "fired" && prev.counter != 0 && !o.hookA && cur.ret != 1 then
+    else if k == "T" && res == "fired" && prev.counter != 0 && !o.hookA && !o.hookD &&
+        (cur.ret != 1 || (prev.running && !cur.running)) then
       { o with bad := some "C15 expiry-stopped-the-service-while-a-connection-is-open" }
     else o
   let o := if k == "T" || k == "C" then { o with hookA := false } else o
@@ -274,6 +282,7 @@ def oracleStep (o : Orc) (tok res : String) (prev cur : Snap) : Orc :=
   let o :=
     if k == "H" && prev.lst then { o with closedSince := true }
     else if k == "B" && res == "nil" then { o with closedSince := false }
+    else if o.sock && k == "S" && res == "go" then { o with closedSince := false }   -- Listen binds again
     else o
   if k == "C" && res == "ok" && o.closedSince then { o with bad := some "C14 client-accepted-after-shutdown" }
   else if k == "B" && res != "running" && prev.running then { o with bad := some "C14 bind-not-refused-while-running" }
@@ -299,39 +308,44 @@ def cmdLife : P String := do
   let hangs ← nat
   let snaps := obs.map (·.2)
   let prop := String.ofList (tag.toList.take 3)
-  let body := evs.length - 9   -- the epilogue ends with R B S0 C Q H X G (8) after H X…
+  let body := evs.length
   let nconn := replies.length
   let final := snaps.getLast?.getD { ret := 0, running := false, lst := false, addr := false, counter := 0, closes := 0, deadlines := 0 }
-  let feats := s!"nt={if hasNontrivial evs snaps then 1 else 0} kind={tag} len={body} conns={nconn} " ++
+  let iR0 := evs.length - 1 - (evs.reverse.findIdx (· == "R"))
+  let feats := s!"nt={if hasNontrivial (evs.take iR0) snaps then 1 else 0} kind={tag} len={body} conns={nconn} " ++
     s!"timeouts={(snaps.filter (·.ret == 3)).length != 0} finalret={final.ret}"
   if hangs != 0 then return s!"DIFF {prop} goroutines-did-not-settle {feats}"
   -- oracles on the observation
-  let mut orc : Orc := {}
+  let sock := (tag.toList.drop 3).take 4 == "sock".toList
+  let mut orc : Orc := { sock }
   let mut prev : Snap := { ret := 0, running := false, lst := false, addr := false, counter := 0, closes := 0, deadlines := 0 }
   for (e, (r, sn)) in evs.zip obs do
     orc := oracleStep orc e r prev sn
     prev := sn
   if let some b := orc.bad then return s!"DIFF {b} {feats}"
-  -- epilogue: H, X for every connection, then R B S0 C Q H X G
+  -- epilogue: H, X for every connection, then R [B] S0 C Q H X G
   let n := evs.length
-  if n ≥ 8 then
-    let obsAt (i : Nat) : String × Snap := obs.getD i ("", prev)
-    let (_, sR) := obsAt (n - 8)
+  let iR := n - 1 - (evs.reverse.findIdx (· == "R"))
+  if n ≥ 7 && iR + 6 < n then
+    let (_, sR) := obs.getD iR ("", prev)
     if sR.ret == 1 then return s!"DIFF C14 serving-call-did-not-return-after-shutdown-and-drain {feats}"
     if sR.counter != 0 then return s!"DIFF C14 active-count-not-zero-after-drain {feats}"
     if sR.running then return s!"DIFF C14 still-running-after-return {feats}"
-    let cyc := [(obsAt (n - 7)).1, (obsAt (n - 6)).1, (obsAt (n - 5)).1, (obsAt (n - 4)).1, (obsAt (n - 3)).1]
-    if cyc != ["nil", "go", "ok", "ok", "nil"] then
-      return s!"DIFF C14 service-not-reusable({String.intercalate "," cyc}) {feats}"
+    let cyc := ((evs.zip obs).drop (iR + 1)).take (n - iR - 3)
+    let want (e : String) : String :=
+      match evKind e with
+      | "B" => "nil" | "S" => "go" | "C" => "ok" | "Q" => "ok" | "H" => "nil" | _ => "?"
+    if cyc.any (fun (e, (r, _)) => want e != r) then
+      return s!"DIFF C14 service-not-reusable({String.intercalate "," (cyc.map (·.2.1))}) {feats}"
     if final.ret != 2 || final.counter != 0 || final.running || final.lst then
       return s!"DIFF C14 second-serve-did-not-end-cleanly {feats}"
   -- the model on the same history
-  let mut s : DS := {}
+  let mut s : DS := { sock }
   for (e, (r, sn)) in evs.zip obs do
     let (s', r') := event s e
     s := s'
     if r' != r then return s!"DIFF {prop} model-mismatch-result-of-{evKind e}(model={r'},observed={r}) {feats}"
-    if let some d := snapDiff (snapOf s) sn then return s!"DIFF {prop} model-mismatch-after-{evKind e}-{d} {feats}"
+    if let some d := snapDiff sock (snapOf s) sn then return s!"DIFF {prop} model-mismatch-after-{evKind e}-{d} {feats}"
   let expReplies := s.connMap.map fun m =>
     match m with
     | none => 0
